@@ -25,7 +25,9 @@ TRUSTED = ["tools/gen_conc.py (extraction of the hwloc_components_init/fini crit
            "pthread_mutex_lock/unlock provide mutual exclusion and the hardware/compiler memory model gives sequential consistency "
            "to race-free programs; the observe/commit split is the model's granularity of interleaving",
            "mprotect(PROT_READ) + SIGSEGV reports every store into the copied topology (stores to memory outside the copy - "
-           "static variables, user buffers, malloc - are not seen by it; statics are covered by the TSan support run only)"]
+           "user buffers, malloc - are not seen by it); stores into the library's own static storage are seen by comparing the .data/.bss "
+           "contribution of every library object (taken from the link map of the harness binary) around every read-only call, a byte "
+           "being allowed to change once per process (lazy first-use initialisation, F15)"]
 ASSUMPTIONS = ["every function-local static environment cache has been initialised once before threads start (Warm); the cold-start "
                "same-value write race is known finding F15",
                "load: with NO_DISTANCES / NO_MEMATTRS the discovery adds no distances / attribute values, so the caches that the tail of "
